@@ -93,6 +93,10 @@ type RealCluster struct {
 type Outcome struct {
 	Kind  string        // "ok", "recoverable", "unrecoverable", "hang"
 	Delay time.Duration // virtual time the receiver takes before answering ("ok" and errors)
+	// IgnoreCancel: the delivery completes (and reports its outcome) although the flush context is
+	// cancelled meanwhile - e.g. the request had already reached the receiver when a reload stopped the
+	// dispatcher
+	IgnoreCancel bool
 }
 
 // Script decides the outcome of a delivery attempt to (receiver, integration idx) at instant now.
@@ -456,7 +460,9 @@ func (n *recNotifier) Notify(ctx context.Context, alerts ...*alert.Alert) (bool,
 		att.Outcome = "hang"
 		retry, err = true, ctx.Err()
 	default:
-		if out.Delay > 0 {
+		if out.Delay > 0 && out.IgnoreCancel {
+			time.Sleep(out.Delay)
+		} else if out.Delay > 0 {
 			select {
 			case <-time.After(out.Delay):
 			case <-ctx.Done():
